@@ -386,6 +386,8 @@ def generate():
     from extract_c13 import extract_coding, lean_coding_tables
     parts.append(lean_coding_tables(extract_coding()))
     parts.append(extract_config())
+    from extract_c14 import extract_transforms, lean_transforms_table
+    parts.append(lean_transforms_table(extract_transforms()))
     parts.append("end FormulaeModel.Generated\n")
     return "\n".join(parts), dict(parser=p, resolver=r)
 
